@@ -458,6 +458,32 @@ func c18Run(c *fw.Ctx) {
 		return "<p style=\"" + html.EscapeString(s) + "\">x</p>"
 	}, c18HTML)
 	c18Enumerate(c, "text", c18TextTokens, fw.Pick(c, 5, 6), func(s string) string { return s }, c18Text)
+	// texts with one very long line (longer than any reader's or scanner's default buffer), before,
+	// after and between every sequence of up to two tokens
+	long := strings.Repeat("a", 70000)
+	n := 0
+	var rec func(cur string, l int)
+	rec = func(cur string, l int) {
+		for _, in := range []string{long + cur, cur + long, cur + "\n" + long + "\n" + cur, cur + long + "\r\n" + cur + " www.a.bc/ <b>"} {
+			n++
+			if !c.Mine(n) || c.Expired() {
+				continue
+			}
+			cas := c18Case{"text", in}
+			if !c.Begin(func() any { return map[string]any{"kind": "text-long", "tokens": cur} }) {
+				continue
+			}
+			c18Text(c, cas)
+			c.Nontrivial(1)
+		}
+		if l == 2 {
+			return
+		}
+		for _, t := range c18TextTokens {
+			rec(cur+t, l+1)
+		}
+	}
+	rec("", 0)
 }
 
 func c18Replay(c *fw.Ctx, raw json.RawMessage) {
